@@ -23,6 +23,8 @@
 //            zeros), true/false in mixed case, word (non-numeric junk), frac (exact binary fractions),
 //            hugeexp (float overflow); suf: unit text | junk; tb: trailing blank
 //   tokens   kv "k=v", noeq "junk", empty "", emptykey "=v", padkv " k = v ", valeq "k=a=b", emptyval "k="
+//            (kv values/keys range over the whole tables: empty value, values and keys with LF / CR / TAB /
+//            control / non-ASCII / invalid-UTF-8 bytes and spaces inside; abstract keys "~k_*" -> concrete text)
 #include <fcntl.h>
 #include <sys/wait.h>
 #include <unistd.h>
@@ -117,6 +119,7 @@ struct Tables
 {
   std::vector<std::pair<std::string, Val>> vals;
   std::vector<std::pair<std::string, std::string>> urls;
+  std::vector<std::pair<std::string, std::string>> keys;  // abstract key "~name" -> concrete text; other keys are literal
   explicit Tables(const std::string &salt)
   {
     vals = {{"s1", std::string("alpha") + salt},
@@ -125,6 +128,14 @@ struct Tables
             {"s4", std::string("gamma.delta") + salt},
             {"s5", std::string("Zeta_9")},
             {"s6", std::string("w")},
+            // values with unusual bytes INSIDE (never at an edge: edges are the padkv don't-care band)
+            {"s_lf", std::string("app:web\ntier:front")},
+            {"s_cr", std::string("a\rb")},
+            {"s_tab", std::string("col1\tcol2")},
+            {"s_ctl", std::string("a\x01\x7f" "b")},
+            {"s_utf", std::string("caf\xc3\xa9 \xe6\x97\xa5\xe6\x9c\xac")},
+            {"s_bin", std::string("x\xff\xfe" "y")},
+            {"s_sp", std::string("two  spaces in side")},
             {"s_empty", std::string()},
             {"i1", int64_t{42}},
             {"i2", int64_t{-7}},
@@ -141,6 +152,12 @@ struct Tables
             {"dflt_lang", std::string("cpp")},
             {"dflt_name", std::string("opentelemetry")},
             {"dflt_ver", std::string(OPENTELEMETRY_SDK_VERSION)}};
+    keys = {{"~k_sp", "key with spaces"},
+            {"~k_lf", "key\nlf"},
+            {"~k_tab", "key\ttab"},
+            {"~k_cr", "key\rcr"},
+            {"~k_ctl", "key\x01" "ctl"},
+            {"~k_utf", "cl\xc3\xa9.\xe9\x94\xae"}};
     urls = {{"", ""},
             {"u1", "https://opentelemetry.io/schemas/1.21.0"},
             {"u2", "http://example.test/schema/2" + salt}};
@@ -179,6 +196,25 @@ struct Tables
       return "=" + nostd::get<std::string>(v);
     return "?";
   }
+  std::string key(const std::string &name) const
+  {
+    for (auto &p : keys)
+      if (p.first == name)
+        return p.second;
+    if (!name.empty() && name[0] == '~' && name != "~rawk")
+    {
+      fprintf(stderr, "c18_env: unknown abstract key %s\n", name.c_str());
+      _exit(90);
+    }
+    return name;
+  }
+  std::string key_name(const std::string &k) const
+  {
+    for (auto &p : keys)
+      if (p.second == k)
+        return p.first;
+    return k;
+  }
   std::string url(const std::string &name) const
   {
     for (auto &p : urls)
@@ -205,7 +241,7 @@ static json project(const Tables &t, const sdkr::Resource &r)
 {
   json a = json::object();
   for (auto &kv : r.GetAttributes())
-    a[kv.first] = t.name_of(kv.second);
+    a[t.key_name(kv.first)] = t.name_of(kv.second);
   return json{{"attrs", a}, {"url", t.url_name(r.GetSchemaURL())}};
 }
 
@@ -214,7 +250,7 @@ static sdkr::ResourceAttributes make_attrs(const Tables &t, const json &m)
   sdkr::ResourceAttributes a;
   if (m.is_object())
     for (auto it = m.begin(); it != m.end(); ++it)
-      a[it.key()] = t.value(it.value().get<std::string>());
+      a[t.key(it.key())] = t.value(it.value().get<std::string>());
   return a;
 }
 static json norm_map(const json &m)
@@ -320,7 +356,8 @@ static Conc concretise(const json &s, int inst, Rng &rng)
     b = mixed_case(body, inst, rng);
   else if (body == "word")
   {
-    static const std::vector<std::string> w = {"abc", "yes", "on", "tru", "truee", "t", "#", "\xc3\xa9", "off", "no",
+    static const std::vector<std::string> w = {"abc", "yes", "on", "tru", "truee", "t", "#", "\xc3\xa9", "off", "no", "a\nb", "tr\rue", "x\ty",
+                                               "\x01", "tr ue", "\xff\xfe",
                                                "falsee", "enabled", "_", "--", "e5", "x1"};
     b = inst < (int)w.size() && inst < 3 ? w[inst] : rng.pick(w);
   }
@@ -596,7 +633,7 @@ struct Prov
 // environment
 static std::string pad(Rng &rng, bool force)
 {
-  static const std::vector<std::string> p = {" ", "  ", "\t"};
+  static const std::vector<std::string> p = {" ", "  ", "\t", "\n", "\r"};
   if (force || rng.below(2))
     return rng.pick(p);
   return "";
@@ -610,9 +647,10 @@ static std::string concretise_tokens(const Tables &t, json &toks, Rng &rng)
   for (auto &tk : toks)
   {
     std::string kind = tk["t"], k = tk.value("k", "-"), v = tk.value("v", "-");
+    std::string ck = t.key(k);  // concrete key text
     std::string text, rawk = "~rawk", rawv = "~rawv";
     if (kind == "kv")
-      text = k + "=" + t.str(v);
+      text = ck + "=" + t.str(v);
     else if (kind == "noeq")
       text = std::vector<std::string>{"junk", "novalue", "k1", " ", "service.name"}[rng.below(5)];
     else if (kind == "empty")
@@ -622,7 +660,7 @@ static std::string concretise_tokens(const Tables &t, json &toks, Rng &rng)
     else if (kind == "padkv")
     {
       bool left       = rng.below(2);
-      std::string kk  = (left ? pad(rng, true) : pad(rng, false)) + k + (left ? pad(rng, false) : pad(rng, true));
+      std::string kk  = (left ? pad(rng, true) : pad(rng, false)) + ck + (left ? pad(rng, false) : pad(rng, true));
       std::string vv  = pad(rng, false) + t.str(v) + pad(rng, false);
       text            = kk + "=" + vv;
       rawk            = kk;
@@ -631,11 +669,11 @@ static std::string concretise_tokens(const Tables &t, json &toks, Rng &rng)
     else if (kind == "valeq")
     {
       std::string vv = std::vector<std::string>{"a=b", "=", "x==y", "b64=="}[rng.below(4)];
-      text           = k + "=" + vv;
+      text           = ck + "=" + vv;
       rawv           = t.name_of_string(vv);
     }
     else if (kind == "emptyval")
-      text = k + "=";
+      text = ck + "=";
     else
     {
       fprintf(stderr, "c18_env: unknown token kind %s\n", kind.c_str());
@@ -1067,7 +1105,7 @@ static json random_job(Rng &rng, uint64_t seed, int len)
 {
   static const std::vector<std::string> base = {"service.name", "telemetry.sdk.language", "telemetry.sdk.name",
                                                 "telemetry.sdk.version", "process.executable.name"};
-  static const std::vector<std::string> odd = {"", " spaced key ", "\xd0\xba\xd0\xbb\xd1\x8e\xd1\x87", "a=b", "k,comma",
+  static const std::vector<std::string> odd = {"", " spaced key ", "\xd0\xba\xd0\xbb\xd1\x8e\xd1\x87", "a=b", "k,comma", "~k_lf", "~k_utf", "~k_sp",
                                                std::string(300, 'K')};
   std::vector<std::string> keys = base;
   int nk = 5 + (int)rng.below(11);
@@ -1076,8 +1114,10 @@ static json random_job(Rng &rng, uint64_t seed, int len)
   for (auto &o : odd)
     if (rng.below(3) == 0)
       keys.push_back(o);
-  std::vector<std::string> ekeys = {"service.name", "telemetry.sdk.language", "process.executable.name", "k0", "k1", "k2", "k3", "k4"};
-  static const std::vector<std::string> svals = {"s1", "s2", "s3", "s4", "s5", "s6"};
+  std::vector<std::string> ekeys = {"service.name", "telemetry.sdk.language", "process.executable.name", "k0", "k1", "k2", "k3", "k4",
+                                    "~k_sp", "~k_lf", "~k_tab", "~k_cr", "~k_ctl", "~k_utf"};
+  static const std::vector<std::string> svals = {"s1", "s2", "s3", "s4", "s5", "s6", "s_empty", "s_lf", "s_cr", "s_tab", "s_ctl",
+                                                 "s_utf", "s_bin", "s_sp"};
   static const std::vector<std::string> vals  = {"s1", "s2", "s3", "s4", "s5", "s6", "s_empty", "i1", "i2", "n1", "u1", "q1",
                                                  "b1", "b0", "d1", "vs1", "vi1", "vb1", "vd1", "dflt_lang"};
   static const std::vector<std::string> kinds = {"kv", "kv", "kv", "kv", "noeq", "empty", "emptykey", "padkv", "valeq", "emptyval"};
@@ -1094,7 +1134,10 @@ static json random_job(Rng &rng, uint64_t seed, int len)
   switch (rng.below(4))
   {
     case 0:
-      svc = json{{"c", "set"}, {"v", rng.pick(svals)}};
+    {
+      std::string v = rng.pick(svals);
+      svc = json{{"c", "set"}, {"v", v == "s_empty" ? std::string("s2") : v}};  // (an empty value is the class "empty")
+    }
       break;
     case 1:
       svc = json{{"c", clean ? "unset" : "empty"}, {"v", "-"}};
